@@ -5,7 +5,7 @@ FILES = gencheck.GEN_FILES + ["src/eolib/__init__.py", "src/eolib/protocol/__ini
 RULE = genprops.RULES["C18"]
 ASSUMPTIONS = ["byte-identical text, hash-seed behaviour, directory enumeration and importability are runtime facts observed on this interpreter / filesystem"]
 run = genprops.run_c18
-replay = genprops.replay_generic
+replay = genprops.replay_by_rerun(genprops.run_c18)
 
 
 def oracle_sweep(ctx):
